@@ -5,6 +5,7 @@
 package backtest
 
 import (
+	"cmp"
 	// Go embed report template.
 	_ "embed"
 	"fmt"
@@ -166,7 +167,7 @@ func (h *HTMLReport) AssetEnd(name string) error {
 
 	// Sort the backtest results by the outcomes.
 	slices.SortFunc(results, func(a, b *htmlReportResult) int {
-		return int(b.Outcome - a.Outcome)
+		return cmp.Compare(b.Outcome, a.Outcome)
 	})
 
 	bestResult := results[0]
@@ -188,7 +189,7 @@ func (h *HTMLReport) AssetEnd(name string) error {
 func (h *HTMLReport) End() error {
 	// Sort the best results by the outcomes.
 	slices.SortFunc(h.bestResults, func(a, b *htmlReportResult) int {
-		return int(b.Outcome - a.Outcome)
+		return cmp.Compare(b.Outcome, a.Outcome)
 	})
 
 	return h.writeReport()
